@@ -219,7 +219,7 @@ func main() {
 		}
 		ran++
 		if cr.crash != "" {
-			viols = append(viols, viol{wk.Violation{Key: *prop + ":crash:" + crashKey(cr.crash), What: "worker process died inside the library: " + firstLine(cr.crash), Witness: map[string]any{"trace": truncate(cr.crash, 6000), "mode": cr.spec.Mode, "env": cr.spec.Env}}, i})
+			viols = append(viols, viol{wk.Violation{Key: *prop + ":crash:" + crashKey(faultingGoroutine(cr.crash)), What: "worker process died inside the library: " + firstLine(cr.crash), Witness: map[string]any{"trace": truncate(cr.crash, 6000), "mode": cr.spec.Mode, "env": cr.spec.Env}}, i})
 		}
 		if cr.timed {
 			inconclusive = append(inconclusive, fmt.Sprintf("batch %d (%s): watchdog fired after %v", i, cr.spec.Mode, cr.spec.Timeout))
@@ -437,6 +437,20 @@ func firstLine(s string) string {
 	return s
 }
 
+// faultingGoroutine: the part of a Go crash trace that belongs to the goroutine that panicked (the message and the first
+// goroutine block) - other goroutines that merely happen to be inside the library at that moment say nothing about the crash.
+func faultingGoroutine(trace string) string {
+	i := strings.Index(trace, "\ngoroutine ")
+	if i < 0 {
+		return trace
+	}
+	rest := trace[i+1:]
+	if j := strings.Index(rest, "\n\n"); j >= 0 {
+		return trace[:i+1+j]
+	}
+	return trace
+}
+
 var frameRe = regexp.MustCompile(`github\.com/uhppoted/uhppote-core/([\w\-/]+)\.([\w\.\(\)\*\[\]]+)`)
 
 // crashKey names a crash by its first library frame.
@@ -546,7 +560,7 @@ func runChild(bin, prop, tier string, seed uint64, i, n, mi, mn int, b Batch, di
 		} else if ix := strings.Index(s, "fatal error: "); ix >= 0 {
 			cr.crash = s[ix:]
 		}
-		if cr.crash != "" && !strings.Contains(cr.crash, "uhppoted/uhppote-core/") {
+		if cr.crash != "" && !strings.Contains(faultingGoroutine(cr.crash), "uhppoted/uhppote-core/") {
 			// a crash of the harness itself is never a verdict on the library
 			cr.err = fmt.Errorf("worker crashed outside the library: %s", firstLine(cr.crash))
 			cr.stderr = truncate(cr.crash, 1500)
